@@ -372,7 +372,7 @@ def make_dict_structure_fn(
                 lines.append(f"{i}res['{an}'] = {struct_handler_name}(o['{kn}'])")
             else:
                 lines.append(f"{i}res['{an}'] = {struct_handler_name}(o['{kn}'], {tn})")
-            if override.rename is not None:
+            if override.rename is not None and kn != an:
                 lines.append(f"{i}del res['{kn}']")
             i = i[:-2]
             lines.append(f"{i}except Exception as e:")
@@ -441,7 +441,7 @@ def make_dict_structure_fn(
                 )
 
             lines.append(invocation_line)
-            if override.rename is not None:
+            if override.rename is not None and kn != an:
                 lines.append(f"  del res['{override.rename}']")
 
         # The second loop is for optional args.
@@ -486,7 +486,7 @@ def make_dict_structure_fn(
                     post_lines.append(
                         f"    res['{ian}'] = {struct_handler_name}(o['{kn}'], {tn})"
                     )
-                if override.rename is not None:
+                if override.rename is not None and kn != an:
                     lines.append(f"  res.pop('{override.rename}', None)")
 
         if _cattrs_forbid_extra_keys:
